@@ -11,4 +11,5 @@ for p in ("dev", "release"):
     m = frontend.load(p)
     print("MIR", p, len(m.funcs), "bodies", "%.1fs" % m.dump_s)
 print("replay binaries:", replay.build())
+print("lexer reference:", replay.build_lex("dev"))
 PY
